@@ -159,7 +159,8 @@ CLAIMED["C15"] = dict(cat="proof", ref="DESIGN.md §5 C15, §11, §12, §13",
         "kernel-checked counterexamples (c15_machine_counterexample_*) show the machine derails outside those hypotheses (findings F33, F5b, F5a, F28). "
         "READ side of the machine (AvroJSONDecoder driven by read_data: frame stack, _current, _key, _push_and_adjust, read_index re-binding the union member, "
         "iter_array / iter_map, lazily executed actions, drain_actions between documents; Proofs/JsonMachineDec.lean): c15_machine_json_reader (the machine returns "
-        "what the function-level reader returns, any depth, any number of documents, for schemas whose map values leave no pop pending — DOk — and documents of the "
+        "what the function-level reader returns, any depth, any number of documents, for schemas whose map values leave at most their own RecordEnd pending — DOk: "
+        "primitives, enums, fixed, arrays, maps, unions of those, records whose last field is one of those — and documents of the "
         "writer's shape — Fits, proved of every specification encoding by spec_fits), c15_machine_reads_spec (so the specification's encodings are read back as the "
         "records as written) and c15_machine_round_trip (json_writer then json_reader on the machine = the records as written). "
         "The driver evaluates Spec.written and the machine model on every harness case; implementation = machine model is compared on record lists (also on the "
@@ -167,7 +168,7 @@ CLAIMED["C15"] = dict(cat="proof", ref="DESIGN.md §5 C15, §11, §12, §13",
         "agreement-with-binary and absent-field-default clauses are checked on the implementation (JSON text compared by value with Spec.jsonEncode under the documented "
         "branch rule, read back, compared with the binary round trip, fields deleted from the text take the specification's reading of their default, defaults family "
         "over every field kind, write_union_type on/off, empty record list).",
-   note="the read-side theorems exclude maps whose values are records (one level works in implementation and model, two levels fail: F28) and documents with absent fields "
+   note="the read-side theorems exclude maps whose values are unions with a record branch or records ending in a record (F28) and documents with absent fields "
         "(defaults: harness, spec_default oracle); the model's loops carry an iteration bound of 1,000,000 (hypothesis Small); open findings F5a-d, F27, F28, F33 (grammar "
         "machine), F14 (numbers not rounded to the type's precision); F30-F32 (defaults consumed / dropped) found by the machine model and fixed in /repo; "
         "model==implementation observed by correspondence",
